@@ -216,8 +216,9 @@ class MultiTerm(qcore.Query):
             return matching.NullMatcher()
 
         reader = searcher.reader()
-        qs = [Term(fieldname, word) for word in self._btexts(reader)
-              if word]
+        # (the empty string is a term like any other: an ID field whose value
+        # is "" indexes it)
+        qs = [Term(fieldname, word) for word in self._btexts(reader)]
         if not qs:
             return matching.NullMatcher()
 
